@@ -167,7 +167,12 @@ def _worker(spec):
     byk = {(r.gi, r.idx, r.mode): r for r in recs}
     if rc != 0 or not meta['end']:
         first = next((j for j in jobs if j[0] != 'D' and (j[0], j[1], j[2]) not in byk), None)
-        out['viol'].append((['site:lexer@crash'], 'run aborted rc=%s timeout=%s at termset %s input %r: %s' % (rc, meta.get('timeout'), [t.text for t in sets[first[0]]] if first else None, first[3] if first else None, err[-300:]),
+        ckeys = ['site:lexer@crash']
+        if first is not None and not is_corpus:
+            # a wrongly merged automaton (recorded finding classes, decided on the reference side) may also accept the empty string: the parse then never advances
+            if not refs[first[0]].deterministic(): ckeys.append(CLASS_KEY)
+            if any(rxc_nested(a) for a in astss[first[0]]): ckeys.append(NESTED_KEY)
+        out['viol'].append((ckeys, 'run aborted rc=%s timeout=%s at termset %s input %r: %s' % (rc, meta.get('timeout'), [t.text for t in sets[first[0]]] if first else None, (first[3][:60] + b'...' if len(first[3]) > 60 else first[3]) if first else None, err[-300:]),
                             {'termset': [t.to_json() for t in sets[first[0]]] if first else None, 'input': first[3].hex() if first else None}))
     for gi, (g, ts) in enumerate(zip(gs, sets)):
         if gi in skip: continue
